@@ -177,6 +177,19 @@ def h_json(nr, nc, idk, mdk, header, direct, reader='from_json'):
             t2, e = call(lambda: P.parse_biom_table(doc))
         elif reader == 'parse_table:lines':
             t2, e = call(lambda: P.parse_biom_table([doc]))
+        elif reader == 'load_table:fs':
+            # a path on the (modelled) file system: plain or gzip-compressed, under names with and without a .gz suffix --
+            # biom_open decides by the content, not by the name
+            from checks import fsmodel
+            U = env.module('biom.util')
+            kind = pick(['text', 'gzip'], 'file-content')
+            name = pick(fsmodel.FILE_NAMES, 'file-name')
+            fs = fsmodel.FS()
+            fs.put(name, kind, (lambda: T.SFile([doc])) if sym else (lambda: __import__('io').StringIO(doc)))
+            fsmodel.install(U, fs, b.h5)
+            P.biom_open = U.biom_open
+            sig = dict(sig, content=kind, name=name)
+            t2, e = call(lambda: P.load_table(name))
         else:
             fh2 = T.SFile([doc]) if sym else __import__('io').StringIO(doc)
             if reader == 'parse_table:handle':
@@ -274,7 +287,7 @@ def jobs(tier):
                         continue
                     out.append(('json', (nr, nc, idk, mdk, 'concrete', direct)))
         if nr * nc <= 4 or tier != 'quick':
-            for reader in ('parse_table:text', 'parse_table:lines', 'parse_table:handle', 'load_table:path'):
+            for reader in ('parse_table:text', 'parse_table:lines', 'parse_table:handle', 'load_table:path', 'load_table:fs'):
                 out.append(('json', (nr, nc, 'nasty', 'mixed', 'concrete', False, reader)))
         for mdk in ('none', 'mixed'):
             out.append(('stream_equals_string', (nr, nc, mdk)))
